@@ -1,6 +1,6 @@
 /-
   line protocol of the combined slice (core + x/subaccount). Core op lines are those of Driver/CoreStep.lean
-  (MA MU MR GR GV HD HW W EB and the quiet set-up lines PARAMS BAL T); they are parsed into `Core.Op` and executed
+  (MA MU MR GR GV HD HW W EB and the quiet set-up lines PARAMS BAL T) plus `S src dst amt` (bank MsgSend); they are parsed into `Core.Op` and executed
   by `Sge.Combined.step` (`EB` = the combined end-block). Subaccount lines:
     SP w d                                      quiet: x/subaccount params (wager / deposit enabled)
     SC creator owner n (ts amt)*                MsgCreate
@@ -88,6 +88,7 @@ def parseCoreOp (ws : List String) : Option Core.Op :=
   | "W" :: creator :: rest =>
     let (tk, rest) := parseTk rest
     (parseWagerTail rest).map fun r => .wager (parseNat creator) tk r.1 r.2.1 r.2.2
+  | ["S", src, dst, amt] => some (.send (parseNat src) (parseNat dst) (parseInt amt))   -- bank MsgSend (not a drv_core line)
   | _ => none
 
 def parseSubOp (ws : List String) : Option Sge.Combined.Op :=
